@@ -788,8 +788,16 @@ class IteratorQueue(IterableQueue[_ValueT]):
 
   def enqueue_from_iterator(self, iterator: Iterable[_ValueT]):
     """Iterates through a generator while enqueue its elements."""
-    iterator = iter(iterator)
     self._start_enqueue()
+    try:
+      iterator = iter(iterator)
+    except Exception as e:  # pylint: disable=broad-exception-caught
+      # The registered enqueuer cannot even start: this is an enqueue failure.
+      e.add_note(f'Exception during enqueueing "{self.name}".')
+      logging.exception('chainable: %s', f'"{self.name}" enqueue failed.')
+      self._exception = e
+      self._stop_enqueue()
+      raise e
     while not self.enqueue_done:
       try:
         self.put(next(iterator))
